@@ -131,6 +131,23 @@ def scenario(i1a: int, i1b: int, i2a: int, perm: int, fault: int, point: int, du
     return hx.check(inputs, log, exp, "an answer must be transmitted only on the connection its request arrived on, at most once; otherwise NotRoutable and nothing is sent")
 
 
+def repro_equal_ids_two_conns():
+    """known finding (residual of the repaired routing defect): equal hop-by-hop AND end-to-end ids pending on two connections"""
+    hx.begin()
+    b = B.Bench(n_peers=2, apps=((4, "auth"),))
+    n, app = b.node, b.apps[0]
+    c1, _ = b.make_ready(b.peers[0], "10.0.1.1")
+    c2, _ = b.make_ready(b.peers[1], "10.0.1.2")
+    b.inject(c1, B.ccr(B.PEER_HOSTS[0], 0x10001, 7000, session="a"))
+    b.inject(c2, B.ccr(B.PEER_HOSTS[1], 0x10001, 7000, session="b"))
+    drain(c1)
+    drain(c2)
+    app.send_answer(app.generate_answer(app.requests[1], result_code=2001))
+    on1 = [m.session_id for m in drain(c1)]
+    on2 = [m.session_id for m in drain(c2)]
+    return on1 == ["b"], "answer to peer2's request (0x10001, 7000) queued on peer1's connection: %r, on peer2's: %r" % (on1, on2)
+
+
 def repro_equal_hbh():
     """known finding: two peers use the same hop-by-hop id at the same time; the second peer's answer goes to the first peer"""
     hx.begin()
